@@ -251,7 +251,12 @@ func (e *Env) tr(x Expr) TV {
 		if _, isI := t.Underlying().(*types.Interface); isI {
 			return TV{S: v.S, Sort: sIface, Ty: t}
 		}
-		return TV{S: vc.enc.unbox("(if-data "+v.S+")", t), Sort: vc.enc.sortOf(t), Ty: t}
+		res := TV{S: vc.enc.unbox("(if-data "+v.S+")", t), Sort: vc.enc.sortOf(t), Ty: t}
+		if !strings.Contains(v.S, "q$") && !strings.Contains(v.S, "op$") {
+			// a value of this dynamic type satisfies the type's representation invariant
+			vc.emit(implies(eq("(if-tag "+v.S+")", fmt.Sprint(vc.prog.typeTag(t))), vc.typeInv(e.st, res.S, t)))
+		}
+		return res
 	case *ESpecScope:
 		c := e.child()
 		if n.Spec.Pkg != "" {
